@@ -2,7 +2,26 @@
 use crate::rng::Rng;
 use crate::util::{jstr, Stats};
 
+pub mod c01;
+pub mod c02;
+pub mod c03;
+pub mod c04;
+pub mod c05;
+pub mod c06;
+pub mod c07;
+pub mod c08;
+pub mod c09;
+pub mod c10;
+pub mod c11;
+pub mod c12;
+pub mod c13;
+pub mod c14;
+pub mod c15;
+pub mod c16;
 pub mod c17;
+pub mod c18;
+pub mod c19;
+pub mod c20;
 
 pub struct Violation {
     pub class: String,     // short slug of what failed (used for known-finding matching)
@@ -33,6 +52,25 @@ pub type OracleFn = fn(n: usize, rng: &mut Rng, rep: &mut Report);
 
 pub fn oracles() -> Vec<(&'static str, OracleFn)> {
     vec![
+        ("C01", c01::run as OracleFn),
+        ("C02", c02::run as OracleFn),
+        ("C03", c03::run as OracleFn),
+        ("C04", c04::run as OracleFn),
+        ("C05", c05::run as OracleFn),
+        ("C06", c06::run as OracleFn),
+        ("C07", c07::run as OracleFn),
+        ("C08", c08::run as OracleFn),
+        ("C09", c09::run as OracleFn),
+        ("C10", c10::run as OracleFn),
+        ("C11", c11::run as OracleFn),
+        ("C12", c12::run as OracleFn),
+        ("C13", c13::run as OracleFn),
+        ("C14", c14::run as OracleFn),
+        ("C15", c15::run as OracleFn),
+        ("C16", c16::run as OracleFn),
         ("C17", c17::run as OracleFn),
+        ("C18", c18::run as OracleFn),
+        ("C19", c19::run as OracleFn),
+        ("C20", c20::run as OracleFn),
     ]
 }
